@@ -97,6 +97,123 @@ def canon_term_text(text):
     return text, False
 
 
+# -- semantic identity of terms (normal form of the difference / sum; no text match) -----------
+
+_SYM_CACHE = {}
+_FUNCS = {'cos', 'sin', 'tan', 'sqrt', 'exp', 'log', 'abs', 'len', 'max', 'min', 'float', 'int', 'arccos', 'arcsin',
+          'arctan', 'cosh', 'sinh', 'tanh'}
+
+
+def _to_sym(text):
+    """Term text -> sympy expression (atoms: names, attribute chains, subscripts, unknown calls)."""
+    if text in _SYM_CACHE:
+        return _SYM_CACHE[text]
+    import sympy as sp
+
+    def conv(e):
+        if isinstance(e, ast.Constant) and isinstance(e.value, (int, float)) and not isinstance(e.value, bool):
+            return sp.nsimplify(e.value, rational=True)
+        if isinstance(e, ast.Name):
+            return sp.pi if e.id == 'pi' else sp.Symbol(e.id)
+        if isinstance(e, ast.Attribute):
+            if e.attr == 'pi' and isinstance(e.value, ast.Name) and e.value.id in ('np', 'numpy', 'math', 'ma'):
+                return sp.pi
+            return sp.Symbol(ast.unparse(e))
+        if isinstance(e, ast.UnaryOp) and isinstance(e.op, ast.USub):
+            return -conv(e.operand)
+        if isinstance(e, ast.UnaryOp) and isinstance(e.op, ast.UAdd):
+            return conv(e.operand)
+        if isinstance(e, ast.BinOp):
+            a, b = conv(e.left), conv(e.right)
+            if isinstance(e.op, ast.Add):
+                return a + b
+            if isinstance(e.op, ast.Sub):
+                return a - b
+            if isinstance(e.op, ast.Mult):
+                return a * b
+            if isinstance(e.op, ast.Div):
+                return a / b
+            if isinstance(e.op, ast.Pow):
+                return a ** b
+            raise ValueError
+        if isinstance(e, ast.Call):
+            f = e.func
+            name = f.attr if isinstance(f, ast.Attribute) else (f.id if isinstance(f, ast.Name) else None)
+            if name in _FUNCS and not e.keywords:
+                fn = getattr(sp, {'arccos': 'acos', 'arcsin': 'asin', 'arctan': 'atan', 'abs': 'Abs'}.get(name, name), None)
+                args = [conv(a) for a in e.args]
+                if name in ('len', 'max', 'min', 'float', 'int') or fn is None:
+                    if name in ('float',):
+                        return args[0]
+                    return sp.Function(name)(*args)
+                return fn(*args)
+            return sp.Symbol(ast.unparse(e))
+        if isinstance(e, ast.Subscript):
+            return sp.Symbol(ast.unparse(e))
+        raise ValueError
+
+    try:
+        out = conv(ast.parse(text, mode='eval').body)
+    except Exception:
+        out = None
+    _SYM_CACHE[text] = out
+    return out
+
+
+_SAME_CACHE = {}
+
+
+def same_term(a, b):
+    """+1 if the two term texts denote the same expression, -1 if one is the negative of the other,
+    0 otherwise.  Decided by the rational normal form of a-b / a+b (sympy.cancel), atoms opaque."""
+    if a == b:
+        return 1
+    key = (a, b)
+    if key in _SAME_CACHE:
+        return _SAME_CACHE[key]
+    out = 0
+    sa_, sb_ = _to_sym(a), _to_sym(b)
+    if sa_ is not None and sb_ is not None and sa_.free_symbols == sb_.free_symbols:
+        import sympy as sp
+        try:
+            if sp.cancel(sp.expand(sa_ - sb_)) == 0:
+                out = 1
+            elif sp.cancel(sp.expand(sa_ + sb_)) == 0:
+                out = -1
+        except Exception:
+            out = 0
+    _SAME_CACHE[key] = out
+    return out
+
+
+def match_disjunct(d, term, when):
+    """A guard disjunct {term: rejected-set, ...} against a catalogue row (term, when={term: set}).
+    Returns the set of `term` values the disjunct rejects whenever the row's `when` conditions hold,
+    or None if the disjunct is about something else."""
+    got = None
+    need = dict(when)
+    for k, s in d.items():
+        o = same_term(k, term)
+        if o and got is None:
+            got = s if o > 0 else s.negate()
+            continue
+        hit = None
+        for wt, ws in need.items():
+            o = same_term(k, wt)
+            if o:
+                ks = s if o > 0 else s.negate()
+                if not ws.subset_of(ks):
+                    return None          # the guard fires only on part of the documented case
+                hit = wt
+                break
+        if hit is None:
+            return None                  # an extra condition the row does not state
+        del need[hit]
+    if got is None:
+        return None
+    return got          # unmatched `when` terms: the guard is unconditional there, i.e. stronger
+
+
 def atom(l, op, r, selfname):
     """One comparison -> {term: ISet} or None."""
     if isinstance(op, (ast.In, ast.NotIn)):
@@ -403,6 +520,7 @@ def run(model, tier):
         if flipped:
             adm = adm.negate()
         row = dict(row, term=cterm)
+        when = {k: ISet.parse(v) for k, v in row.get('when', {}).items()}
         must_reject = adm.complement()
         where = row.get('where', 'ctor')
         for cshort in row['classes']:
@@ -422,11 +540,12 @@ def run(model, tier):
                     if ss is not None:
                         cand.extend(ss)
                 for d in cand:
-                    if list(d.keys()) == [row['term']]:
+                    rej = match_disjunct(d, row['term'], when)
+                    if rej is not None:
                         ok_ctx = g.context == 'top' or (g.context == 'loop' and row.get('in_loop')) \
                             or (g.context == 'cond' and row.get('in_branch'))
                         if g.kind == 'ValueError' and ok_ctx:
-                            rejected = rejected.union(d[row['term']])
+                            rejected = rejected.union(rej)
                             used.append(g)
                         else:
                             weak.append(g)
